@@ -755,6 +755,9 @@ class TermBuilder(object):
                     return self._b(vals[0], {}, {})              # module-level constant
                 if len(vals) == 1 and isinstance(vals[0], ast.UnaryOp) and isinstance(vals[0].operand, ast.Constant):
                     return self._b(nf.canon(vals[0]), {}, {})
+                if len(vals) == 1 and isinstance(vals[0], (ast.Tuple, ast.List)) and all(
+                        isinstance(n, (ast.Tuple, ast.List, ast.Constant, ast.Load, ast.UnaryOp, ast.USub)) for n in ast.walk(vals[0])):
+                    return self._b(vals[0], {}, {})                  # module-level literal table
                 return ('ext', mod.name + '.' + nm)
             return ('ext', self.module.name + '.' + e.id)
         if isinstance(e, ast.Attribute):
@@ -832,6 +835,25 @@ class TermBuilder(object):
             return ('tuple' if isinstance(e, ast.Tuple) else 'list', tuple(b(x) for x in e.elts))
         if isinstance(e, ast.IfExp):
             return ('ifexp', b(e.test), b(e.body), b(e.orelse))
+        if isinstance(e, ast.DictComp) and len(e.generators) == 1 and not e.generators[0].ifs and not e.generators[0].is_async:
+            # {k(x): v(x) for x in <literal sequence>} is unrolled into a dictionary term
+            gen = e.generators[0]
+            seq = b(gen.iter)
+            if seq[0] in ('tuple', 'list') and len(seq[1]) <= 32:
+                items = []
+                for elt in seq[1]:
+                    env2 = dict(env)
+                    if isinstance(gen.target, ast.Name):
+                        env2[gen.target.id] = elt
+                    elif isinstance(gen.target, (ast.Tuple, ast.List)) and elt[0] in ('tuple', 'list') \
+                            and len(elt[1]) == len(gen.target.elts) and all(isinstance(t_, ast.Name) for t_ in gen.target.elts):
+                        for t_, v_ in zip(gen.target.elts, elt[1]):
+                            env2[t_.id] = v_
+                    else:
+                        return ('opaque', 'DictComp:' + short(e, 60))
+                    items.append((self._b(e.key, env2, store), self._b(e.value, env2, store)))
+                return ('dict', tuple(items))
+            return ('opaque', 'DictComp:' + short(e, 60))
         if isinstance(e, ast.Dict) and all(k is not None for k in e.keys):
             return ('dict', tuple((b(k), b(v)) for k, v in zip(e.keys, e.values)))
         if isinstance(e, ast.Lambda) and not (e.args.vararg or e.args.kwarg or e.args.kwonlyargs or e.args.defaults):
